@@ -4,7 +4,7 @@ import os, binascii, tempfile
 from . import common
 from .grammar import Grammar
 
-VT = {'V': 'vf::V', 'W': 'vf::W', 'I': 'long', 'M': 'vf::MV', 'B': 'vf::Bag'}
+VT = {'V': 'vf::V', 'W': 'vf::W', 'I': 'long', 'M': 'vf::MV', 'B': 'vf::Bag', 'N': 'no_type', 'T': 'vf::TD'}
 
 def cchar(ch):
     o = ord(ch)
@@ -47,6 +47,7 @@ def emit_one(g, gi, runtime_ctor=False, limits=None, extra_decl=''):
                 o.append('constexpr char_term t%d(%s, %d, %s);' % (j, cchar(t.text), t.prec, ASSOC[t.assoc])); ref = 't%d' % j
         elif t.kind == 'k':
             if t.typed == 'n': o.append('constexpr custom_term t%d(%s, create<no_type>{}, %d, %s);' % (j, cstr(t.display()), t.prec, ASSOC[t.assoc]))
+            elif getattr(g, 'ttstate', False): o.append('constexpr custom_term t%d(%s, vf::TTS<%s>{%d}, %d, %s);' % (j, cstr(t.display()), VT[getattr(g, 'tvtype', 'V')], j, t.prec, ASSOC[t.assoc]))
             else: o.append('constexpr custom_term t%d(%s, vf::TT<%d, %s>{}, %d, %s);' % (j, cstr(t.display()), j, VT[getattr(g, 'tvtype', 'V')], t.prec, ASSOC[t.assoc]))
             ref = 't%d' % j
             tref.append(ref); continue
@@ -65,6 +66,7 @@ def emit_one(g, gi, runtime_ctor=False, limits=None, extra_decl=''):
             if ref[0] in '\'"':
                 o.append('constexpr %s t%d(%s);' % ('char_term' if t.kind == 'c' else 'string_term', j, ref)); ref = 't%d' % j
             if t.typed == 'n': o.append('constexpr typed_term tt%d(%s, create<no_type>{});' % (j, ref))
+            elif getattr(g, 'ttstate', False): o.append('constexpr typed_term tt%d(%s, vf::TTS<%s>{%d});' % (j, ref, VT[getattr(g, 'tvtype', 'V')], j))
             else: o.append('constexpr typed_term tt%d(%s, vf::TT<%d, %s>{});' % (j, ref, j, VT[getattr(g, 'tvtype', 'V')]))
             ref = 'tt%d' % j
         tref.append(ref)
@@ -81,7 +83,9 @@ def emit_one(g, gi, runtime_ctor=False, limits=None, extra_decl=''):
         post = bool(r.prec) and r.ftor != 'd' and (ri + gi + len(g.rules)) % 2 == 1
         if r.prec and not post: txt += '[%d]' % r.prec
         vt = VT[g.vtypes[r.lhs]]
-        if r.ftor == 'f': txt += ' >= vf::R<%d, %s>{}' % (ri, vt)
+        if r.ftor == 'f' and g.vtypes[r.lhs] == 'N': txt += ' >= vf::RN<%d>{}' % ri
+        elif r.ftor == 'f': txt += ' >= vf::R<%d, %s>{}' % (ri, vt)
+        elif r.ftor == 'x' and g.vtypes[r.lhs] == 'N': txt += ' >>= vf::XN<%d>{}' % ri; is_ctx = True
         elif r.ftor == 'x': txt += ' >>= vf::X<%d, %s>{}' % (ri, vt); is_ctx = True
         elif r.ftor == 'd': pass
         elif r.ftor[0] == 'e' and r.ftor[1:].isdigit(): txt += ' >= _' + r.ftor
